@@ -398,5 +398,5 @@ func genCase(rt *rapid.T) c11Case {
 }
 
 func TestC11CacheDifferential(t *testing.T) {
-	common.Check(t, id, "TestC11CacheDifferential", 1500, 60000, genCase, prop)
+	common.Check(t, id, "TestC11CacheDifferential", 5000, 120000, genCase, prop)
 }
